@@ -89,6 +89,22 @@ def project_font(font, layout=True):
             gl = glyf[g]
             if gl.isComposite():
                 comp.append([gmap[g], [gmap[c.glyphName] for c in gl.components if c.glyphName in gmap]])
+    if "CFF " in font:
+        # Type 2 charstring spec, appendix C: `[w] adx ady bchar achar endchar` composes the StandardEncoding glyphs
+        # bchar and achar (deprecated "seac" form); read off programs that consist of those operands only
+        from fontTools.encodings.StandardEncoding import StandardEncoding
+
+        cs = font["CFF "].cff[0].CharStrings
+        for g in order:
+            try:
+                c = cs[g]
+                c.decompile()
+                prog = c.program
+            except Exception:
+                continue
+            if len(prog) in (5, 6) and prog[-1] == "endchar" and all(isinstance(x, (int, float)) for x in prog[:-1]):
+                names = [StandardEncoding[int(prog[-3])], StandardEncoding[int(prog[-2])]]
+                comp.append([gmap[g], [gmap[n] for n in names if n in gmap]])
     math = []
     if "MATH" in font and font["MATH"].table.MathVariants:
         mv = font["MATH"].table.MathVariants
@@ -859,50 +875,63 @@ def concretise(optrow, pf, rng):
 
 
 def rule_key_lists(pf):
-    """For every layout subtable of the original font: (keys, sets).  keys = the glyphs its coverage / first position
-    lists, in glyph order (the order in which the font stores per-glyph records); sets = groups of glyphs that stand
-    for one class (mark classes, ClassDef classes, context position sets)."""
+    """For every layout subtable of the original font: (keys, groups).  keys = the glyphs its coverage / first position
+    lists, in glyph order (the order in which the font stores per-glyph records); groups = lists of sibling glyph
+    sets in the order the font numbers them (mark classes; first / second glyph classes of class pairs; the first
+    input sets of the rules of a context subtable; the second glyphs per first glyph of glyph pairs), plus
+    singleton groups for other position sets."""
     out = []
+
+    def distinct(seq):
+        seen, res = set(), []
+        for x in seq:
+            x = tuple(sorted(set(x)))
+            if x and x not in seen:
+                seen.add(x)
+                res.append(list(x))
+        return res
+
     for tb in ("gsub", "gpos"):
         for lk in pf["L"][tb]["lookups"]:
             ty = lk["ty"]
             for st in lk["st"]:
-                keys, sets = [], []
+                keys, groups = [], []
                 if ty in ("sub1", "sub2", "sub3", "pos1", "curs"):
                     keys = [e[0] for e in st["m"]]
                 elif ty == "sub4":
                     keys = [c[0][0] for c in st["l"]]
-                    sets = [list(c[0]) for c in st["l"]]
+                    groups = [[x] for x in distinct(c[0] for c in st["l"])]
                 elif ty == "rsub":
                     for r in st["r"]:
                         keys += [e[0] for e in r["m"]]
-                        sets += [list(x) for x in r["b"] + r["a"]]
+                        groups += [[x] for x in distinct(r["b"] + r["a"])]
                 elif ty == "ctx":
-                    for r in st["r"]:
-                        keys += list(r["i"][0]) if r["i"] else []
-                        sets += [list(x) for x in r["b"] + r["i"] + r["a"]]
+                    keys = [g for r in st["r"] if r["i"] for g in r["i"][0]]
+                    groups = [distinct(r["i"][0] for r in st["r"] if r["i"])]
+                    groups += [[x] for r in st["r"] for x in distinct(r["b"] + r["i"][1:] + r["a"])]
                 elif ty == "pos2":
                     if st["f"] == 1:
                         keys = [e[0] for e in st["p"]]
-                        sets = [[e[1] for e in st["p"] if e[0] == k] for k in sorted({e[0] for e in st["p"]})]
+                        groups = [distinct([e[1] for e in st["p"] if e[0] == k] for k in sorted({e[0] for e in st["p"]}))]
                     else:
                         keys = list(st["cov"])
-                        sets = [list(e[0]) for e in st["c"]] + [list(e[1]) for e in st["c"]]
+                        groups = [distinct(e[0] for e in st["c"]), distinct(e[1] for e in st["c"])]
                 elif ty in ("mkb", "mkm", "mkl"):
                     keys = [b[0] for b in st.get("bases", st.get("ligs", []))]
-                    sets = [[m[0] for m in st["marks"] if m[1] == c] for c in sorted({m[1] for m in st["marks"]})]
-                    sets.append([m[0] for m in st["marks"]])
+                    groups = [distinct([m[0] for m in st["marks"] if m[1] == c] for c in sorted({m[1] for m in st["marks"]})),
+                              [[m[0] for m in st["marks"]]]]
                 keys = sorted(set(keys))
-                sets = [sorted(set(x)) for x in sets if x]
-                if len(keys) >= 2 or sets:
-                    out.append((keys, sets))
+                groups = [g for g in groups if g]
+                if len(keys) >= 2 or groups:
+                    out.append((keys, groups))
     return out
 
 
 def make_requests(pf, order, rng, count):
     """Seeded requests over the characters and glyphs of the font.  The first two are aimed at the renumbering of
     per-glyph records and of classes: `split` drops a leading part of the glyphs one subtable lists (and keeps
-    everything else), `dropset` drops all glyphs of one class / position set of one subtable; then half of the
+    everything else), `dropset` drops all glyphs of one class / position set of one subtable (mostly the first class of
+    a group of sibling classes); then half of the
     characters; then the other request forms (single character, glyph names, glyph ids, text, all but one, mixed,
     a few, everything) in a rotation that starts at a font-dependent place."""
     chars = sorted({u for u, _g in pf["cmap"]})
@@ -935,8 +964,13 @@ def make_requests(pf, order, rng, count):
             else:
                 r = {"unicodes": some_chars(rng.randint(2, 6))}
         elif kind == "dropset":
-            cands = [x for _k, ss in rules for x in ss if any(g in by_glyph for g in x)]
-            if cands:
+            enc = lambda x: any(g in by_glyph for g in x)
+            # the first class of a group that has a later, still encoded sibling: the case in which classes are renumbered
+            lead = [grp[0] for _k, gs in rules for grp in gs if len(grp) >= 2 and enc(grp[0]) and any(enc(x) for x in grp[1:])]
+            cands = [x for _k, gs in rules for grp in gs for x in grp if enc(x)]
+            if lead and rng.random() < 0.85:
+                r = all_but_glyphs(rng.choice(lead))
+            elif cands:
                 r = all_but_glyphs(rng.choice(cands))
             else:
                 drop = rng.choice(chars) if chars else None
@@ -979,8 +1013,53 @@ def _font_for_tlc(pf, full):
     return f
 
 
+SYNTH_SEAC = "synthetic-cff-seac.otf"  # pseudo corpus path: no corpus font uses endchar-seac composites
+
+
+def synthetic_cff_seac():
+    """A CFF font whose accented glyphs are endchar-seac composites, with and without a leading width operand."""
+    from fontTools.fontBuilder import FontBuilder
+    from fontTools.misc.psCharStrings import T2CharString
+
+    glyphs = [".notdef", "A", "E", "acute", "grave", "dieresis", "Aacute", "Agrave", "Adieresis", "Eacute", "Egrave", "B"]
+    dflt, nominal = 600, 500
+    # StandardEncoding: 65 A, 69 E, 194 acute, 193 grave, 200 dieresis
+    prog = {
+        ".notdef": ["endchar"],
+        "A": [0, 0, "rmoveto", 300, 700, "rlineto", 300, -700, "rlineto", "endchar"],
+        "E": [50, 0, "rmoveto", 0, 700, "rlineto", 400, 0, "rlineto", 0, -700, "rlineto", "endchar"],
+        "acute": [200 - nominal, 250, 750, "rmoveto", 100, 100, "rlineto", 20, -100, "rlineto", "endchar"],
+        "grave": [200 - nominal, 250, 850, "rmoveto", 100, -100, "rlineto", -20, 100, "rlineto", "endchar"],
+        "dieresis": [300 - nominal, 200, 800, "rmoveto", 50, 50, "rlineto", 50, -50, "rlineto", "endchar"],
+        "Aacute": [650 - nominal, 150, 0, 65, 194, "endchar"],
+        "Agrave": [150, 0, 65, 193, "endchar"],
+        "Adieresis": [700 - nominal, 100, 10, 65, 200, "endchar"],
+        "Eacute": [120, 0, 69, 194, "endchar"],
+        "Egrave": [620 - nominal, 120, 0, 69, 193, "endchar"],
+        "B": [0, 0, "rmoveto", 0, 700, "rlineto", 300, 0, "rlineto", "endchar"],
+    }
+    widths = {".notdef": 600, "A": 600, "E": 600, "acute": 200, "grave": 200, "dieresis": 300, "Aacute": 650, "Agrave": 600,
+              "Adieresis": 700, "Eacute": 600, "Egrave": 620, "B": 600}
+    fb = FontBuilder(unitsPerEm=1000, isTTF=False)
+    fb.setupGlyphOrder(glyphs)
+    fb.setupCharacterMap({0x41: "A", 0x45: "E", 0x42: "B", 0xB4: "acute", 0x60: "grave", 0xA8: "dieresis", 0xC1: "Aacute",
+                          0xC0: "Agrave", 0xC4: "Adieresis", 0xC9: "Eacute", 0xC8: "Egrave"})
+    fb.setupCFF("VerifC07Seac-Regular", {"FullName": "VerifC07Seac Regular"}, {g: T2CharString(program=list(p)) for g, p in prog.items()},
+                {"defaultWidthX": dflt, "nominalWidthX": nominal})
+    fb.setupHorizontalMetrics({g: (widths[g], 0) for g in glyphs})
+    fb.setupHorizontalHeader(ascent=800, descent=-200)
+    fb.setupNameTable({"familyName": "VerifC07Seac", "styleName": "Regular"})
+    fb.setupOS2()
+    fb.setupPost()
+    buf = io.BytesIO()
+    fb.save(buf)
+    return buf.getvalue()
+
+
 def corpus_bytes(path):
-    """Bytes of a corpus font: binaries as they are, whole-font TTX compiled by the library."""
+    """Bytes of a corpus font: binaries as they are, whole-font TTX compiled by the library, the synthetic font built."""
+    if os.path.basename(path) == SYNTH_SEAC:
+        return synthetic_cff_seac()
     if path.endswith(".ttx"):
         from . import fonts
 
@@ -1199,15 +1278,19 @@ def run(chk):
         ctx = any(lk["ty"] == "ctx" for lk in c["font"]["L"]["gsub"]["lookups"])
         return 0 if (c.get("w", 0) > 0 and ctx) else 1 if c.get("w", 0) > 0 else 2
 
-    quota = [10000, 5000, 5000] if thorough else [1800, 900, 900]
+    quota = [10000, 5000, 5000] if thorough else [1200, 600, 600]
     if os.environ.get("VERIF_C07_NR"):  # development aid
         quota = [int(os.environ["VERIF_C07_NR"]) // 3] * 3
-    idxs = []
+    # always in: the cases whose closure needs a second pass over a lookup reached only as a nested lookup (three
+    # lookups, at least two glyphs to add); they are few and nothing else exercises the re-visit of a memoised lookup
+    must = [k for k in range(len(gens)) if len(gens[k]["font"]["L"]["gsub"]["lookups"]) >= 3 and gens[k].get("w", 0) >= 2]
+    chk.notes["model_cases_second_pass"] = len(must)
+    idxs = list(must)
     for st in range(3):
         pool = [k for k in range(len(gens)) if stratum(gens[k]) == st]
         chk.notes["model_cases_stratum_%d" % st] = len(pool)
         idxs += rng_sample.sample(pool, min(quota[st], len(pool)))
-    idxs.sort()
+    idxs = sorted(set(idxs))
     res = common.pmap(gen_job, [(gens[k], chk.seed, k) for k in idxs], chunksize=8)
     fonts, traces, fkey = [], [], {}
     for r in res:
@@ -1251,6 +1334,7 @@ def run(chk):
             isvar = b"<fvar>" in f.read()
         if isvar or os.sep + os.path.join("Tests", "subset", "data") + os.sep in p or os.path.basename(p).startswith("MasterSet_Kanji-w"):
             files.append((p, -1))  # MasterSet_Kanji: the only CID-keyed fonts whose font dicts interleave
+    files.append((os.path.join(common.TESTS, SYNTH_SEAC), -1))
     if os.environ.get("VERIF_C07_FILTER"):  # development aid: comma-separated substrings of corpus paths
         subs = os.environ["VERIF_C07_FILTER"].split(",")
         files = [(p, i) for p, i in files if any(x in p for x in subs)]
@@ -1259,7 +1343,7 @@ def run(chk):
     jobs = [(p, i, chk.seed, optrows, nreq - 1 if (not thorough and os.sep + "aots" + os.sep in p) else nreq, 60 if thorough else 30)
             for p, i in files]
     # big fonts first so that the pool is balanced
-    jobs.sort(key=lambda j: -os.path.getsize(j[0]) * (1 if j[0].endswith(".ttx") else 8))
+    jobs.sort(key=lambda j: -(os.path.getsize(j[0]) if os.path.exists(j[0]) else 0) * (1 if j[0].endswith(".ttx") else 8))
     res = common.pmap(corpus_job, jobs, chunksize=1)
     fonts, traces = [], []
     unsup = {}
